@@ -104,7 +104,8 @@ def explore_c20(rng, tier, res, deep=False):
                 argv += ["-r", qp]
                 q_eff = q.strip()
             else:
-                argv += ["-q", q]
+                # a query text that starts with '-' has to be attached to the option, as a user would do
+                argv += (["--query=" + q] if q.startswith("-") else ["-q", q])
                 q_eff = q
             stdin_text = None
             if use_stdin:
